@@ -188,6 +188,8 @@ def words_pool(rng, enc, paren_ok):
             pool += gen.WORDS_BEYOND_LATIN1
     elif r < 0.9 and paren_ok:
         pool += ['(', ')', '[', ']', 'a(b)c', '-LRB-', '{']
+    if rng.random() < 0.15:
+        pool += ['C:\\', '\\', 'a\\', '1\\/2', 'None', 'nan']
     if rng.random() < 0.25:
         pool += gen.WORDS_TABSTOP
     if rng.random() < 0.2:
@@ -700,7 +702,10 @@ def draw_driver(rng):
     elif r < 0.5:
         trans = [rng.choice(['punctuation_delete', 'punctuation_verylow',
                              'add_topnode', 'collapse_unary_chains',
-                             'root_attach', 'punctuation_root'])]
+                             'root_attach', 'punctuation_root',
+                             'punctuation_verylow', 'punctuation_symetrify',
+                             'punctuation_root'])]
+        punct_bank = True
     elif r < 0.6:
         trans = ['filter_by_length']
         params += ['filteroperator:' + rng.choice(['lt', 'gt', 'eq', 'le',
